@@ -32,8 +32,11 @@ allp = sorted(set(pkgs) | {p for p in named if os.path.isdir(os.path.join(W, p.r
 demo = meta.get("demo", "")
 m = re.search(r"(?:to|as)\s+`?(?:<repo root>/|the repo(?:sitory)? root as\s+)?`?([\w./-]+_test\.go)`?", demo)
 dest = m.group(1) if m else None
-m = re.search(r"go test [^`\n;]*?-run\s+\S+\s+\S+", demo)
-cmd = m.group(0) if m else None
+m = re.search(r"-run[ =]+['\"]?([\w|^$()]+)", demo)
+cmd = None
+if m and dest:
+    pkg = "./" + os.path.dirname(dest) + "/" if os.path.dirname(dest) else "."
+    cmd = f"go test -count=1 -run '{m.group(1)}' {pkg}"
 demo_src = [f for f in os.listdir(O) if f.endswith("_test.go") or f.endswith(".go")]
 if not dest or not cmd or not demo_src:
     print("cannot parse demo instructions:", demo); sys.exit(2)
